@@ -167,6 +167,23 @@ int run_managed( int nobs, int rounds, bool forced)
             }
             rd.sampled.fetch_add( 1);
          });
+      // a thread that calls isActive() at arbitrary times, not synchronised with
+      // anything the managed thread does (only its accesses matter, for TSan)
+      std::atomic< int>   stop_poll{ 0};
+      std::atomic< long>  polls{ 0};
+      std::thread  poller( [&]()
+      {
+         celma::common::ManagedThread*  mt = nullptr;
+         while ((mt = rd.obj.load()) == nullptr)
+            std::this_thread::yield();
+         long  seen = 0;
+         while (stop_poll.load( std::memory_order_relaxed) == 0)
+         {
+            if (mt->isActive())
+               ++seen;
+            polls.fetch_add( 1, std::memory_order_relaxed);
+         }
+      });
       {
          celma::common::ManagedThread  mt( [&rd]()
          {
@@ -180,6 +197,8 @@ int run_managed( int nobs, int rounds, bool forced)
          mt.join();
          if (mt.isActive())
             ++active_after_join;
+         stop_poll.store( 1, std::memory_order_relaxed);
+         poller.join();
          for (auto& t : obs)
             t.join();
       }
